@@ -171,4 +171,53 @@ def wfTEv : TEv → Bool
 
 def wfHist (h : List TEv) : Bool := h.all wfTEv
 
+/-! ### The driver's reading of `Set*Timer` outputs, judged by behaviour (timer probe)
+
+  From the property text: the timers follow the value set; "if the negotiated hold time is zero
+  no hold … timer runs".  So, after one `apply_outputs` call on a fresh task:
+  the value that counts is the LAST `set-hold n` / `set-ka n` of the call;
+  `set-hold 0` (disabled) must not fire; `set-X n`, `n > 0`, must not fire now and must be due in
+  exactly `n` seconds; a timer nobody set must not fire.  (`set-ka 0` is outside the property:
+  the FSM never emits it for a connection the property speaks about, see `keepalive_third_invariant`.) -/
+
+def lastSet (isHold : Bool) : List POut → Option Nat
+  | [] => none
+  | o :: rest =>
+      match lastSet isHold rest with
+      | some n => some n
+      | none =>
+          match o with
+          | .conn _ (.setHold n) => if isHold then some n else none
+          | .conn _ (.setKa n) => if isHold then none else some n
+          | _ => none
+
+def probeCheck (outs : List POut) (o : ProbeObs) : Option String :=
+  let h : Option String :=
+    match lastSet true outs with
+    | none => if o.hold.fires then some "unarmed-hold-timer-fires" else none
+    | some 0 => if o.hold.fires then some "disabled-hold-timer-fires" else none
+    | some n =>
+        if o.hold.fires then some "hold-timer-fires-early"
+        else if o.hold.armed ≠ .secs n then some "hold-deadline-not-the-value-set" else none
+  let k : Option String :=
+    match lastSet false outs with
+    | none => if o.ka.fires then some "unarmed-keepalive-timer-fires" else none
+    | some 0 => none
+    | some n =>
+        if o.ka.fires then some "keepalive-timer-fires-early"
+        else if o.ka.armed ≠ .secs n then some "keepalive-deadline-not-the-value-set" else none
+  match h with
+  | some e => some e
+  | none => k
+
+/-- Outputs a probe case may contain (those after which the task carries on and that need no
+    session context). -/
+def probeOut : POut → Bool
+  | .conn _ (.setHold _) => true
+  | .conn _ (.setKa _) => true
+  | .conn _ .sendKeepalive => true
+  | .conn _ (.stateChanged _) => true
+  | .stopActiveConnect => true
+  | _ => false
+
 end Rbgp.Fsm.TimedSpec
